@@ -166,6 +166,17 @@ func vlNewWorld(t testing.TB, store *BadgerStore, salt string, fam []string, var
 			}
 		case "deposit":
 			d := *w.deps[def.dep]
+			if name == "D2" {
+				// the second claimant of identifier d1 names the same (chain, transaction, index) but may
+				// differ in the components that are NOT part of the identifier
+				switch (variant / 4) % 3 {
+				case 1:
+					d.AssetKey = assetKey + "-other"
+					tx = common.NewTransactionV5(vlHash("asset3", salt))
+				case 2:
+					d.Amount = common.NewInteger(4)
+				}
+			}
 			tx.AddDepositInput(&d)
 		case "mint":
 			tx.AddUniversalMintInput(w.batch[def.batch], common.NewInteger(def.amt))
